@@ -115,6 +115,72 @@ theorem eq_congruent (a b c : Value) (h : vcmp b c = some .eq) :
   rw [vcmp_congr b c h a, vcmp_congr_left h a]
   exact ⟨rfl, rfl⟩
 
+/-! #### `.<=` is a total preorder on comparable values whose symmetric part is `.==` -/
+
+/-- `a .<= b` succeeded with true only if `compare` said less or equal -/
+theorem le_key (x y : Value) (h : holds (compareOp .dle x y) = some true) :
+    vcmp x y = some .lt ∨ vcmp x y = some .eq := by
+  simp only [holds, compareOp, orderingsOf, checkOrdering, Outcome.bind] at h
+  cases hv : vcmp x y with
+  | none => simp [hv] at h
+  | some o => cases o <;> simp_all
+
+/-- and conversely -/
+theorem le_of (x y : Value) (h : vcmp x y = some .lt ∨ vcmp x y = some .eq) :
+    holds (compareOp .dle x y) = some true := by
+  rcases h with h | h <;> simp [holds, compareOp, orderingsOf, checkOrdering, Outcome.bind, h]
+
+/-- `.<=` is transitive -/
+theorem le_trans (a b c : Value) (h1 : holds (compareOp .dle a b) = some true)
+    (h2 : holds (compareOp .dle b c) = some true) : holds (compareOp .dle a c) = some true := by
+  apply le_of
+  rcases le_key a b h1 with hab | hab
+  · rcases le_key b c h2 with hbc | hbc
+    · exact Or.inl (vcmp_lt_trans a b c hab hbc)
+    · exact Or.inl ((vcmp_congr b c hbc a) ▸ hab)
+  · rw [vcmp_congr_left hab c]
+    exact le_key b c h2
+
+/-- `.<=` is antisymmetric up to `.==` -/
+theorem le_antisymm (a b : Value) (h1 : holds (compareOp .dle a b) = some true)
+    (h2 : holds (compareOp .dle b a) = some true) : holds (compareOp .deq a b) = some true := by
+  have hab : vcmp a b = some .eq := by
+    rcases le_key a b h1 with hab | hab
+    · rcases le_key b a h2 with hba | hba
+      · rw [vcmp_lt_gt hab] at hba; cases hba
+      · exact vcmp_eq_symm hba
+    · exact hab
+  simp [holds, compareOp, vcmp_eq_imp_veq a b hab]
+
+/-- `.<` is asymmetric -/
+theorem lt_asymm (a b : Value) (h : holds (compareOp .dlt a b) = some true) :
+    holds (compareOp .dlt b a) = some false := by
+  simp only [holds, compareOp, orderingsOf, checkOrdering, Outcome.bind] at h ⊢
+  rw [vcmp_swap a b]
+  cases hv : vcmp a b with
+  | none => simp [hv] at h
+  | some o => cases o <;> simp_all [Ordering.swap]
+
+/-- `.<` is irreflexive: no value is below itself -/
+theorem lt_irrefl (a : Value) : holds (compareOp .dlt a a) ≠ some true := by
+  intro h
+  have := lt_asymm a a h
+  rw [h] at this
+  cases this
+
+/-- on mutually comparable values `.<=` is total -/
+theorem le_total (a b : Value) (o : Ordering) (h : vcmp a b = some o) :
+    holds (compareOp .dle a b) = some true ∨ holds (compareOp .dle b a) = some true := by
+  cases o with
+  | lt => exact Or.inl (le_of a b (Or.inl h))
+  | eq => exact Or.inl (le_of a b (Or.inr h))
+  | gt => exact Or.inr (le_of b a (Or.inl (vcmp_gt_lt h)))
+
+/-- `a .<= b` is exactly "not `a .> b`" on comparable values -/
+theorem le_iff_not_gt (a b : Value) (o : Ordering) (h : vcmp a b = some o) :
+    ∃ g, holds (compareOp .dgt a b) = some g ∧ holds (compareOp .dle a b) = some (!g) := by
+  cases o <;> simp [holds, compareOp, orderingsOf, checkOrdering, Outcome.bind, h]
+
 /-! #### lists and strings compare lexicographically, a proper prefix first -/
 
 theorem list_lex_head (x y : Value) (xs ys : List Value) (o : Ordering) (h : vcmp x y = some o)
